@@ -25,6 +25,7 @@ SPACES = {
         dict(nv=3, maxl=3, minl=3, classes=("D", "U", "O")),
         dict(nv=2, maxl=6, minl=4, classes=("D",)),                # many links on one vertex
         dict(nv=2, maxl=4, minl=4, classes=("D", "U", "O")),       # four links of mixed kinds
+        dict(nv=3, maxl=2, classes=("D", "U", "O"), twin=True),    # the last vertex carries the first one's uid
     ],
     "thorough": [
         dict(nv=3, maxl=3, classes=ALL6),
@@ -34,6 +35,7 @@ SPACES = {
         dict(nv=3, maxl=4, minl=4, classes=("D", "U", "O")),
         dict(nv=2, maxl=7, minl=5, classes=("D", "O")),            # many links on one vertex
         dict(nv=3, maxl=8, minl=5, classes=("D",), pairs=[(0, 1), (0, 2), (1, 0)]),
+        dict(nv=3, maxl=3, classes=("D", "U", "O"), twin=True),
     ],
 }
 # deterministic shapes (chains, rings, stars, trees, fans of parallel links, ...) at a ladder of sizes
